@@ -72,6 +72,8 @@ class Trace:
     outcome: tuple = ("pending", None)
     actions: list = field(default_factory=list)  # scheduler decisions (indices) for replay
     snapshots: list = field(default_factory=list)
+    puts: list = field(default_factory=list)  # (tick, call index, "internal"|"external") mailbox puts
+    start_event: Any = None
     runner: Any = None
     handler: Any = None
     deadlock: bool = False
@@ -96,6 +98,12 @@ class RecordingPolicy:
 
 _CURRENT_ORACLE: list = []
 _ACTIVE: list["Run"] = []
+MAX_CALLS = 4000
+
+
+class RunawayRun(BaseException):
+    """raised inside the reducer wrapper when a generated run does not terminate"""
+
 
 
 class Run:
@@ -213,6 +221,7 @@ async def _body(run: Run, sdef: dict, ctx: Context, ev: Any) -> Any:
                               "elapsed": ri.elapsed_seconds}
     except Exception as e:  # pragma: no cover
         info["retry_info_error"] = repr(e)
+    info["ty"] = ET.TY_ID.get(type(ev), -1)
     run.trace.steps.append(("enter", name, uid, rn, loop.time(), info))
     status = "ok"
     try:
@@ -224,7 +233,7 @@ async def _body(run: Run, sdef: dict, ctx: Context, ev: Any) -> Any:
         status = "raise:" + type(e).__name__
         raise
     finally:
-        run.trace.steps.append(("exit", name, uid, rn, loop.time(), {"status": status}))
+        run.trace.steps.append(("exit", name, uid, rn, loop.time(), {"status": status, "ret": run.__dict__.pop("_last_ret", None)}))
 
 
 def _sync_body(run: Run, sdef: dict, ctx: Context, ev: Any) -> Any:
@@ -245,6 +254,12 @@ def _sync_body(run: Run, sdef: dict, ctx: Context, ev: Any) -> Any:
 
 
 def _ret_value(run: Run, act: list, ev: Any) -> Any:
+    v = _ret_value0(run, act, ev)
+    run._last_ret = (act[1], getattr(v, "uid", None))  # type: ignore[attr-defined]
+    return v
+
+
+def _ret_value0(run: Run, act: list, ev: Any) -> Any:
     what = act[1]
     if what == "none":
         return None
@@ -276,7 +291,10 @@ async def _interp(run: Run, sdef: dict, ctx: Context, ev: Any, rn: int) -> Any:
         elif op == "yield":
             await asyncio.sleep(0)
         elif op == "send":
-            ctx.send_event(ET.mk(act[1], run.fresh(), act[3] if len(act) > 3 else None), step=act[2])
+            sent = ET.mk(act[1], run.fresh(), act[3] if len(act) > 3 else None)
+            run.trace.steps.append(("sent", name, uid, rn, asyncio.get_event_loop().time(),
+                                    {"new_uid": sent.uid, "ty": act[1], "target": act[2]}))
+            ctx.send_event(sent, step=act[2])
         elif op == "stream":
             ctx.write_event_to_stream(ET.mk(act[1], run.fresh(), None))
         elif op == "fail_until":
@@ -348,6 +366,8 @@ def install_observers() -> None:
         caller = sys._getframe(1).f_code.co_name
         run = _ACTIVE[-1] if _ACTIVE else None
         del _CURRENT_ORACLE[:]
+        if run is not None and len(run.trace.calls) > MAX_CALLS and caller == "_process_tick":
+            raise RunawayRun()
         try:
             st, cmds = _orig_reduce(tick, init, now_seconds, run_id=run_id)
         except Exception as e:
@@ -385,10 +405,27 @@ def install_observers() -> None:
     async def write_wrapper(self: Any, event: Event) -> None:
         if _ACTIVE:
             r = _ACTIVE[-1]
-            r.trace.stream.append((event, asyncio.get_event_loop().time(), len(r.trace.calls)))
+            origin = "runner" if sys._getframe(1).f_code.co_name == "process_command" else "step"
+            r.trace.stream.append((event, asyncio.get_event_loop().time(), len(r.trace.calls), origin))
         await _orig_write(self, event)
 
     BASIC.InternalAsyncioAdapter.write_to_event_stream = write_wrapper  # type: ignore[method-assign]
+
+    _orig_isend = BASIC.InternalAsyncioAdapter.send_event
+    _orig_esend = BASIC.ExternalAsyncioAdapter.send_event
+
+    async def isend(self: Any, tick: Any) -> None:
+        if _ACTIVE:
+            _ACTIVE[-1].trace.puts.append((tick, len(_ACTIVE[-1].trace.calls), "internal"))
+        await _orig_isend(self, tick)
+
+    async def esend(self: Any, tick: Any) -> None:
+        if _ACTIVE:
+            _ACTIVE[-1].trace.puts.append((tick, len(_ACTIVE[-1].trace.calls), "external"))
+        await _orig_esend(self, tick)
+
+    BASIC.InternalAsyncioAdapter.send_event = isend  # type: ignore[method-assign]
+    BASIC.ExternalAsyncioAdapter.send_event = esend  # type: ignore[method-assign]
 
 
 def _runner_info(run: Run) -> dict:
@@ -406,6 +443,7 @@ def _runner_info(run: Run) -> dict:
         "pending_workers": [(p.step_name, p.worker_id) for p in r._pending_workers],
         "running_workers": sorted(r._task_keys.values()),
         "mailbox": mailbox,
+        "idle_pending": bool(r._idle_check_pending),
     }
 
 
@@ -433,7 +471,8 @@ def run_spec(spec: dict, seed: int, replay_actions: list[int] | None = None, max
                     ctx = Context.from_dict(wf, json.loads(json.dumps(resume_from)))
                     handler = wf.run(ctx=ctx)
                 else:
-                    handler = wf.run(start_event=ET.T0(uid=1, k=spec.get("start_k")))
+                    run.trace.start_event = ET.T0(uid=1, k=spec.get("start_k"))
+                    handler = wf.run(start_event=run.trace.start_event)
             except Exception as e:
                 run.trace.outcome = ("invalid", e)
                 run.finished = True
@@ -459,6 +498,8 @@ def run_spec(spec: dict, seed: int, replay_actions: list[int] | None = None, max
                 run.trace.outcome = ("timeout", str(e))
             except asyncio.CancelledError:
                 run.trace.outcome = ("aborted", None)
+            except RunawayRun:
+                run.trace.outcome = ("runaway", None)
             except BaseException as e:
                 run.trace.outcome = ("error", e)
             run.finished = True
@@ -522,7 +563,10 @@ def _do_external(run: Run, ext: dict, loop: VLoop) -> None:
     h = run.handler
     op = ext["op"]
     if op == "send":
-        h.ctx.send_event(ET.mk(ext["ty"], run.fresh(), ext.get("k")), step=ext.get("step"))
+        try:
+            h.ctx.send_event(ET.mk(ext["ty"], run.fresh(), ext.get("k")), step=ext.get("step"))
+        except WorkflowRuntimeError as e:
+            run.trace.notes.append(f"external send rejected: {e}")
     elif op == "cancel":
         loop.create_task(h.cancel_run())
     elif op == "snapshot":
